@@ -133,6 +133,7 @@ def clause_history_window(R, F):
     cl = [g for g in F.fns.values() if g.kind == "closure" and "remove_old_values" in g.name]
     ok = False
     txt = "absent"
+    where = cl[0].where() if cl else (rov[0].where() if rov else "history")
     for g in cl:
         def role2(a):
             s = show(a)
@@ -148,38 +149,38 @@ def clause_history_window(R, F):
             txt = fm.text(role2)
             if not bad and r == {"key": 1, "latest": -1} and k == 10 and rel == "<=":
                 ok = True
-    R.ob(ok, "GUARD", cl[0].where() if cl else "history", "GUARD|remove_old_values|form",
+    if not ok and rov:
+        # the same predicate spelled as an `if` inside a hand-written collecting loop over the cache keys: the edge that
+        # carries `key + W <= latest` must be the one leading to the `push`
+        g = rov[0]
+        def role2b(a):
+            if a[0] == "param" and a[1] == 2:
+                return "latest"
+            if mentions(a, ".cache") and (mentions(a, "keys") or mentions(a, "iter")):
+                return "key"
+            return None
+        pushes = [c for c in g.calls() if (c.method or "") == "push" and not g.is_cleanup(c.bb)]
+        for (b, s2, fm, line) in edge_forms(g):
+            if not any(WINDOW_CONST in c for c in fm.lin.consts):
+                continue
+            r, k, rel, bad = fm.roles(role2b)
+            if bad or set(r) != {"key", "latest"}:
+                continue
+            if pushes and all(g.dominates(s2, p.bb) for p in pushes):
+                txt = fm.text(role2b)
+                if r == {"key": 1, "latest": -1} and k == 10 and rel == "<=" and all(
+                        role2b(origin(g, p.args[1])) == "key" for p in pushes):
+                    ok = True
+    R.ob(ok, "GUARD", where, "GUARD|remove_old_values|form",
          "pruning filter is `%s`; expected `key + %s(=10) <= latest`" % (txt, WINDOW_CONST),
          sample={"rule": "GUARD", "fn": "remove_old_values", "form": txt})
     if rov:
         g = rov[0]
-        okk = False
-        how = None
-        for c in g.calls():
-            if g.is_cleanup(c.bb):
-                continue
-            if (c.method or "") == "take":
-                l = lin(origin(g, c.args[1]))
-                if l.k == -1 and len(l.terms) == 1 and "len" in show(list(l.terms)[0]):
-                    okk, how = True, "take(len-1)"
-            if (c.method or "") == "retain":
-                for cid in ((c.func or {}).get("arg_cl") or []):
-                    rc = F.fns.get(cid)
-                    if rc is None:
-                        continue
-                    for fm, line in return_form(rc):
-                        ts = list(fm.lin.terms.items())
-                        # key >= bound   <=>   bound - key <= 0
-                        if fm.rel == "<=" and fm.lin.k == 0 and len(ts) == 2 and sorted(v for _, v in ts) == [-1, 1]:
-                            bound = [a for a, v in ts if v == 1][0]
-                            keyt = [a for a, v in ts if v == -1][0]
-                            import wire as _W
-                            bt = _W.resolve(F, rc, bound)
-                            if "param" in show(keyt) and (mentions(bt, "last") or mentions(bt, "max") or mentions(bt, "next_back")) and mentions(bt, "filter"):
-                                okk, how = True, "retain(key >= last(old keys))"
+        okk, how = _all_but_last(F, g)
         R.ob(okk, "GUARD", g.where(), "GUARD|remove_old_values|all-but-last",
-             "pruning no longer keeps exactly the newest old entry and everything newer (neither `take(len - 1)` over the old keys nor "
-             "`retain(key >= last old key)`)", sample={"rule": "GUARD", "fn": "remove_old_values", "row": how})
+             "pruning no longer keeps exactly the newest old entry and everything newer (none of: `take(len - 1)` over the old keys, "
+             "`split_last()` remainder, `pop()` before the removal loop, `retain(key >= last old key)`)",
+             sample={"rule": "GUARD", "fn": "remove_old_values", "row": how})
     # retain in reorg: key <= N
     cl = [g for g in F.fns.values() if g.kind == "closure" and "BlockHistoryCache" in g.name and "::reorg::" in g.name]
     ok = False
@@ -228,6 +229,7 @@ def clause_history_window(R, F):
     for m in ("set", "unset"):
         g = _history_impl(F, m)
         if g:
+            g = F.inlined(g)     # `set`/`unset` may share a private `record(block, Option<V>)` helper
             lat = [c for c in g.calls() if (c.method or "") == "latest" and not g.is_cleanup(c.bb)]
             ins = [c for c in g.calls() if (c.method or "") == "insert" and not g.is_cleanup(c.bb)]
             rov2 = [c for c in g.calls() if (c.method or "") == "remove_old_values" and not g.is_cleanup(c.bb)]
@@ -245,6 +247,65 @@ def clause_history_window(R, F):
                 a = origin(g, i.args[1])
                 R.ob(a[0] == "param" and a[1] == 2, "WIRE", i.where(), "WIRE|history.%s|insert-key" % m,
                      "history entry is keyed by `%s`, not by the block number argument" % show(a))
+
+
+def _all_but_last(F, g):
+    """does remove_old_values remove every old key except the newest one?  The old keys are collected in ascending order (BTreeMap
+    keys, never reversed); the recognised spellings of `all but the last` are listed in the violation text"""
+    from terms import subterms, contains, _strip_refs
+    import wire as _W
+    calls = [c for c in g.calls() if not g.is_cleanup(c.bb)]
+    if any((c.method or "") in ("rev", "sort_by", "sort_unstable_by", "reverse") for c in calls):
+        return False, "reversed"
+    removes = [c for c in calls if (c.method or "") == "remove" and mentions(origin(g, c.args[0]), ".cache")]
+    for c in calls:
+        if (c.method or "") == "retain":
+            for cid in ((c.func or {}).get("arg_cl") or []):
+                rc = F.fns.get(cid)
+                if rc is None:
+                    continue
+                for fm, line in return_form(rc):
+                    ts = list(fm.lin.terms.items())
+                    # key >= bound   <=>   bound - key <= 0
+                    if fm.rel == "<=" and fm.lin.k == 0 and len(ts) == 2 and sorted(v for _, v in ts) == [-1, 1]:
+                        bound = [a for a, v in ts if v == 1][0]
+                        keyt = [a for a, v in ts if v == -1][0]
+                        bt = _W.resolve(F, rc, bound)
+                        if "param" in show(keyt) and (mentions(bt, "last") or mentions(bt, "max") or mentions(bt, "next_back")) and mentions(bt, "filter"):
+                            return True, "retain(key >= last(old keys))"
+    if not removes:
+        return False, None
+    how = None
+    for rm in removes:
+        kt = origin(g, rm.args[1])
+        this = None
+        # take(len - 1)
+        for c in calls:
+            if (c.method or "") == "take" and mentions(kt, "take"):
+                l = lin(origin(g, c.args[1]))
+                if l.k == -1 and len(l.terms) == 1 and "len" in show(list(l.terms)[0]):
+                    this = "take(len-1)"
+        # split_last(): the `.1` remainder (every element but the last) feeds the removal
+        for x in subterms(kt):
+            if (x[0] == "field" and x[2] == ".1" and x[1][0] == "field" and x[1][2] == ".0" and x[1][1][0] == "field"
+                    and "Some" in x[1][1][2] and x[1][1][1][0] == "call" and x[1][1][1][1].endswith("split_last")):
+                this = "split_last().1"
+        # pop() exactly once, outside any loop, on the collection the removal loop then consumes
+        pops = [c for c in calls if (c.method or "") == "pop" and (c.path or "").startswith("std::vec::Vec")]
+        if len(pops) == 1:
+            p = pops[0]
+            base = _strip_refs(origin(g, p.args[0]))
+            in_loop = _in_cycle(g, p.bb)
+            if contains(kt, base) and not in_loop and g.sdominates(p.bb, rm.bb) and not mentions(kt, "take") and not mentions(kt, "split_last"):
+                this = "pop() then remove the rest"
+        if this is None:
+            return False, None
+        how = this
+    return True, how
+
+
+def _in_cycle(g, bb):
+    return any(bb in g.reachable(x) for x in g.succ(bb))
 
 
 def _no_return_forms(F, g, depth=2):
